@@ -317,3 +317,28 @@ func LockPoint(pos string) {
 		inIntf = false
 	}
 }
+
+// Par1 is Par with a single potentially blocking call: f runs until it blocks, then env runs, then f must be able to
+// complete (natively: f in a goroutine, env after it had time to block, "blocked forever" after the timeout).
+func Par1(f, env func()) {
+	if Symbolic() {
+		OnIdle(func() {
+			OnIdle(nil)
+			env()
+		})
+		f()
+		OnIdle(nil)
+		return
+	}
+	d := make(chan struct{})
+	go func() { defer close(d); f() }()
+	time.Sleep(20 * time.Millisecond)
+	env()
+	select {
+	case <-d:
+	case <-time.After(1500 * time.Millisecond):
+		mu.Lock()
+		Failures = append(Failures, "blocked forever")
+		mu.Unlock()
+	}
+}
